@@ -253,10 +253,13 @@ def strip(c):
 
 
 # ----------------------------------------------------------------------------- shrinking
-def shrink(ck, case, key):
+def shrink(ck, case, key, deadline):
     """greedy one-deletion shrinking of a failing well-formed cell (same violation key)"""
+    import time
     cur = strip(case)
     for _ in range(25):
+        if time.time() > deadline:
+            break
         cands = []
         for k in range(len(cur["groups"])):
             gidk = cur["groups"][k]["id"]
@@ -306,7 +309,7 @@ def run(ck):
                       "iteration over object addresses"]
     ck.gate_static()
 
-    n = ck.n(400, 4000)
+    n = ck.n(1000, 10000)
     cases = [dict(c) for c in CORPUS]
     while len(cases) < n:
         cases.append(gen_case(ck.rng, big=(ck.rng.random() < 0.3)))
@@ -356,10 +359,12 @@ def run(ck):
         for key, what, exp, obs in predicate(c, r):
             if key not in seen:
                 seen[key] = (c, what, exp, obs)
+    import time
+    deadline = time.time() + ck.n(25, 150)   # shrinking is a convenience: bounded
     for key, (c, what, exp, obs) in seen.items():
         small = c
         try:
-            small = shrink(ck, c, key)
+            small = shrink(ck, c, key, deadline)
             r = ck.impl("c14_impl.py", {"cases": [small]}, timeout=120)["results"][0]
             hit = [b for b in predicate(small, r) if b[0] == key]
             if hit:
